@@ -17,7 +17,7 @@ from .. import observe as ob
 from .c03 import canon_u
 
 PROP = "C01"
-RUNS = {"quick": 10000, "thorough": 1000000}
+RUNS = {"quick": 10000, "thorough": 350000}
 WALL = {"quick": 280, "thorough": 3500}
 RULE = ("one run = one valid document x entry point x terminator x vlevel x version parameter, "
         "written and restarted twice, optionally with a lost tail; distinct = distinct (document digest, "
